@@ -268,8 +268,19 @@ class C14Distributions(Machine):
         return {"op": "sample"}
 
     def apply(self, op):
+        # the particle type of the run, then its charge conjugate at the very same energy
+        # (in one process, one after the other: neither may inherit anything from the other)
+        pid = IDS[self.cfg["id"]]
+        conj = pid[:-4] if pid.endswith("_bar") else pid + "_bar"
+        out = self._sample_and_check(pid)
+        if conj in IDS:
+            self.count("probe.conjugate_sampled")
+            out2 = self._sample_and_check(conj)
+            out[1]["conjugate"] = out2[1]
+        return out
+
+    def _sample_and_check(self, pid):
         P, cfg, N = self.pyrex, self.cfg, self.N
-        pid = IDS[cfg["id"]]
         E = cfg["energy"]
 
         def sample():
